@@ -2,7 +2,7 @@
 import solvercheck, framework
 PID = "C05"
 MODULE = "MysticVerif.Props.C05"
-THEOREMS = ["MysticVerif.C05.no_step_when_stopped", "MysticVerif.C05.step_ran_only_if_not_stopped", "MysticVerif.C05.message_truthful", "MysticVerif.C05.step_message_truthful", "MysticVerif.C05.gens_le_maxiter", "MysticVerif.C05.gens_le_maxiter_run", "MysticVerif.C05.new_limits_from_call", "MysticVerif.C05.total_limits", "MysticVerif.C05.resolve_maxiter_isVal", "MysticVerif.C05.solve_returns"]
+THEOREMS = ["MysticVerif.C05.no_step_when_stopped", "MysticVerif.C05.step_ran_only_if_not_stopped", "MysticVerif.C05.message_truthful", "MysticVerif.C05.step_message_truthful", "MysticVerif.C05.gens_le_maxiter", "MysticVerif.C05.gens_le_maxiter_run", "MysticVerif.C05.new_limits_from_call", "MysticVerif.C05.total_limits", "MysticVerif.C05.resolve_maxiter_isVal", "MysticVerif.C05.solve_returns", "MysticVerif.C05.evals_overshoot_lt_one_step", "MysticVerif.C05.warnflag_truthful", "MysticVerif.C05.warnflag_iff_limit_message"]
 
 
 def run_shard(pid, seed, shard, ncases, tier, extra):
